@@ -15,8 +15,9 @@
    theorem is the witness that the same statement was false there. *)
 From Coq Require Import ZArith List Bool.
 From PTK Require Import Lib.Sx Lib.Py Gen.C18_Tables Gen.Whitespace Model.C18_Fragments Model.C18_Ansi Model.C18_Html
-  Model.C18_Convert Model.C18_AnsiGrammar
-  Proofs.C18_FragmentsFacts Proofs.C18_AnsiFacts Proofs.C18_HtmlFacts Proofs.C18_ConvertFacts Proofs.C18_AnsiStrip Proofs.C18_HtmlTemplate.
+  Model.C18_Convert Model.C18_AnsiGrammar Model.C18_Exploded Model.C18_Width Model.C18_Mod
+  Proofs.C18_FragmentsFacts Proofs.C18_AnsiFacts Proofs.C18_HtmlFacts Proofs.C18_ConvertFacts Proofs.C18_AnsiStrip Proofs.C18_HtmlTemplate
+  Proofs.C18_ExplodedFacts Proofs.C18_WidthFacts Proofs.C18_ModFacts.
 Import ListNotations.
 Open Scope Z_scope.
 
@@ -62,6 +63,104 @@ Print Assumptions C18_explode_idempotent.
 Theorem C18_apply_style_text : forall st frs, map ftext (apply_style st frs) = map ftext frs.
 Proof. exact apply_style_text. Qed.
 Print Assumptions C18_apply_style_text.
+
+(* ---- _ExplodedList, fragment_list_width, PygmentsTokens ---------------- *)
+
+(* Item and slice assignment (any index, any slice), append and extend keep
+   every element of an exploded list a single character. *)
+Theorem C18_exploded_invariant : forall l o,
+  all_single l -> (forall vs, o <> EIadd vs) -> all_single (el_step l o).
+Proof. exact el_invariant. Qed.
+Print Assumptions C18_exploded_invariant.
+
+(* lst[i] = v replaces exactly item i for 0 <= i < len and for -len <= i < -1 ... *)
+Theorem C18_exploded_setitem : forall l i v,
+  0 <= i < len l ->
+  setitem_int l i v = firstn (Z.to_nat i) l ++ explode [v] ++ skipn (Z.to_nat (i + 1)) l.
+Proof. exact setitem_int_replaces. Qed.
+Print Assumptions C18_exploded_setitem.
+
+Theorem C18_exploded_setitem_negative : forall l i v,
+  - len l <= i < -1 ->
+  setitem_int l i v = firstn (Z.to_nat (i + len l)) l ++ explode [v] ++ skipn (Z.to_nat (i + len l + 1)) l.
+Proof. exact setitem_int_replaces_negative. Qed.
+Print Assumptions C18_exploded_setitem_negative.
+
+(* ... but lst[-1] = v inserts before the last item (finding C18-F10), *)
+Theorem C18_exploded_setitem_minus_one_refuted :
+  exists l v, all_single l /\
+    setitem_int l (-1) v <> firstn (Z.to_nat (len l - 1)) l ++ explode [v] /\
+    setitem_int l (-1) v = firstn (Z.to_nat (len l - 1)) l ++ explode [v] ++ skipn (Z.to_nat (len l - 1)) l.
+Proof. exact setitem_int_minus_one_refuted. Qed.
+Print Assumptions C18_exploded_setitem_minus_one_refuted.
+
+(* and `lst += items` breaks the invariant (finding C18-F11). *)
+Theorem C18_exploded_iadd_refuted :
+  exists l vs, all_single l /\ ~ all_single (explode_exploded (el_iadd l vs)).
+Proof. exact iadd_invariant_refuted. Qed.
+Print Assumptions C18_exploded_iadd_refuted.
+
+(* After fixes/C18-exploded-list-index-iadd.patch: every index in -len..len-1
+   replaces its item, any other raises, and += keeps the invariant. *)
+Theorem C18_exploded_setitem_patched : forall l i v,
+  let j := if i <? 0 then i + len l else i in
+  setitem_int_patched l i v =
+  if (j <? 0) || (len l <=? j) then None
+  else Some (firstn (Z.to_nat j) l ++ explode [v] ++ skipn (Z.to_nat (j + 1)) l).
+Proof. exact setitem_int_patched_spec. Qed.
+Print Assumptions C18_exploded_setitem_patched.
+
+(* fragment_list_width, for ANY wcwidth: the width of the plain text; exploding keeps it. *)
+Theorem C18_width_is_text_width : forall w frs,
+  fragment_list_width w frs = str_width w (fragment_list_to_text frs).
+Proof. exact width_is_text_width. Qed.
+Print Assumptions C18_width_is_text_width.
+
+Theorem C18_explode_width : forall w frs, fragment_list_width w (explode frs) = fragment_list_width w frs.
+Proof. exact explode_width. Qed.
+Print Assumptions C18_explode_width.
+
+(* PygmentsTokens: the plain text of the fragments is the concatenation of the token texts. *)
+Theorem C18_pygments_plain_text : forall toks,
+  fragment_list_to_text (pygments_frags toks) = concat (map snd toks).
+Proof. exact pygments_plain_text. Qed.
+Print Assumptions C18_pygments_plain_text.
+
+(* ---- the % operator ---------------------------------------------------- *)
+
+(* __mod__ applies the conversions to the ESCAPED values.  Whenever a
+   conversion commutes with escaping (plain %s always; for ANSI also
+   truncation, since ansi_escape is a character map) that is the same as
+   escaping each conversion's output; *)
+Theorem C18_html_mod_commuting : forall conv parts specs vals,
+  (forall sp s, conv sp (html_escape cfg_now s) = html_escape cfg_now (conv sp s)) ->
+  html_mod_markup conv parts specs vals = html_mod_markup_patched conv parts specs vals.
+Proof. exact html_mod_commuting. Qed.
+Print Assumptions C18_html_mod_commuting.
+
+Theorem C18_ansi_mod_commuting : forall conv parts specs vals,
+  (forall sp s, conv sp (ansi_escape cfg_now s) = ansi_escape cfg_now (conv sp s)) ->
+  ansi_mod_text conv parts specs vals = ansi_mod_text_patched conv parts specs vals.
+Proof. exact ansi_mod_commuting. Qed.
+Print Assumptions C18_ansi_mod_commuting.
+
+(* for HTML a truncating conversion does not commute (finding C18-F9): '<b>%.3s</b>' % '&&&&'. *)
+Theorem C18_html_mod_refuted :
+  exists conv parts specs vals,
+    html_parse cfg_now (html_mod_markup conv parts specs vals) = Err 2 /\
+    html_parse cfg_now (html_mod_markup_patched conv parts specs vals)
+    = Ok [mkfrag [99; 108; 97; 115; 115; 58; 98] [38; 38; 38] []].
+Proof. exact html_mod_refuted. Qed.
+Print Assumptions C18_html_mod_refuted.
+
+(* After fixes/C18-html-mod-conversions.patch the markup is the template with
+   each conversion's OUTPUT escaped: an ordinary interpolation of the outputs,
+   to which every inertness theorem applies, whatever the conversions do. *)
+Theorem C18_html_mod_patched_is_interpolation : forall conv parts specs vals,
+  html_parse cfg_now (html_mod_markup_patched conv parts specs vals)
+  = html_template cfg_now parts (map2_conv conv specs vals).
+Proof. exact html_mod_patched_is_interpolation. Qed.
+Print Assumptions C18_html_mod_patched_is_interpolation.
 
 (* ---- to_formatted_text / merge_formatted_text ------------------------ *)
 
